@@ -772,6 +772,9 @@ def no_panic_unless_not_panicking(chk, F, rule, config, fn, rows):
     return n
 
 
+READONLY_STD = re.compile(r'^(std::vec::Vec::(len|is_empty|capacity)|core::slice::<impl \[T\]>::(len|is_empty|first|last)|<std::vec::Vec<T, A> as core::ops::Deref>::deref|core::option::Option::(is_some|is_none))$')
+
+
 def locked_census(chk, F, rule, config, allow, floor):
     """R11.3 / R08.3 / R12.2: every closure run under MutexIsh::locked only calls allow-listed, non-user code.
     allow: list of (receiver-field regex, callee regex list)"""
@@ -818,7 +821,8 @@ def locked_census(chk, F, rule, config, allow, floor):
         for cbb, ct in cf.calls(include_cleanup=True):
             n = symex.callee_name(ct)
             kind = symex.callee_kind(ct)
-            ok = allowed is not None and kind in ('item', 'intrinsic') and any(re.search(rx, n) for rx in allowed)
+            # (read-only inspection of the std container under the lock is mock-internal std code too: it runs no user code)
+            ok = allowed is not None and kind in ('item', 'intrinsic') and (any(re.search(rx, n) for rx in allowed) or bool(READONLY_STD.search(n)))
             chk.ob(rule, 'code run under the lock on `%s` is mock-internal (%s)' % (recv_field, n), ok, config=config, fn=cf,
                    site='under-lock:%s' % recv_field, what='call under lock: %s' % n,
                    found={'callee': n, 'kind': kind}, expected=allowed or 'a known lock site')
